@@ -207,7 +207,7 @@ def roots : List Root := [
   ⟨[6], true, false, true, [6], []⟩,  -- 11 spotMgr.manageSpotlights#1 (worker spotlight.go:74) runWorker(spotCtx, spm.stopper, func(ctx context.Context) {
   ⟨[9, 10], false, false, true, [9, 10], []⟩,  -- 12 actor.runActorCommandWithConsumer#1[runActorCommand$1] (go commands.go:157) go func() {
   ⟨[9, 10], true, false, false, [], []⟩,  -- 13 actor.runActorCommandWithConsumer#2[runActorCommand$1] (go commands.go:227) go func() {
-  ⟨[9, 10, 11], true, false, false, [], []⟩,  -- 14 runReaderAsync#1 (worker commands.go:379) runWorker(readCtx, stopper, func(ctx context.Context) {
+  ⟨[9, 10, 11], true, false, false, [], []⟩,  -- 14 runReaderAsync#1 (worker commands.go:388) runWorker(readCtx, stopper, func(ctx context.Context) {
   ⟨[11], false, true, true, [11], []⟩,  -- 15 actor.runActorCommandWithConsumer#1[spotlight$1] (go commands.go:157) go func() {
   ⟨[11], true, false, false, [], []⟩  -- 16 actor.runActorCommandWithConsumer#2[spotlight$1] (go commands.go:227) go func() {
 ]
@@ -723,7 +723,7 @@ def g4 : List Access := [
 
 /-- []interface{}[] -/
 def g5 : List Access := [
-  A 8 5 true false [] true [],  -- audition.processAssignments audit.go:502 
+  A 8 5 true false [] true [],  -- audition.processAssignments audit.go:511 
   A 8 5 false false [] true []  -- init$19 functions.go:306 
 ]
 
@@ -766,11 +766,11 @@ def g11 : List Access := [
 
 /-- actor.workDir -/
 def g12 : List Access := [
-  A 9 12 false false [] true [(12, .pre), (13, .pre), (14, .pre)],  -- actor.makeShCmd commands.go:357 
+  A 9 12 false false [] true [(12, .pre), (13, .pre), (14, .pre)],  -- actor.makeShCmd commands.go:366 
   A 0 12 false false [] false [(1, .pre), (2, .pre), (3, .pre), (4, .pre)],  -- actor.prepareActionCommands commands.go:277 
   A 0 12 true false [] false [(1, .pre), (2, .pre), (3, .pre), (4, .pre)],  -- config.prepareDirs config.go:209 
-  A 10 12 false false [] true [(13, .mid), (14, .mid)],  -- actor.makeShCmd commands.go:357 
-  A 11 12 false false [] true [(14, .pre), (15, .pre), (16, .pre)]  -- actor.makeShCmd commands.go:357 
+  A 10 12 false false [] true [(13, .mid), (14, .mid)],  -- actor.makeShCmd commands.go:366 
+  A 11 12 false false [] true [(14, .pre), (15, .pre), (16, .pre)]  -- actor.makeShCmd commands.go:366 
 ]
 
 /-- app.isTerminal -/
@@ -867,13 +867,13 @@ def g23 : List Access := [
 
 /-- auditionReport.output -/
 def g24 : List Access := [
-  A 8 24 true false [] true [],  -- audition.processFsmStateChange audit.go:576 
+  A 8 24 true false [] true [],  -- audition.processFsmStateChange audit.go:585 
   A 7 24 false false [] true []  -- collector.collectAuditionReport ? reflect
 ]
 
 /-- auditionReport.result -/
 def g25 : List Access := [
-  A 8 25 true false [] true [],  -- audition.processFsmStateChange audit.go:579 
+  A 8 25 true false [] true [],  -- audition.processFsmStateChange audit.go:588 
   A 7 25 false false [] true []  -- collector.collectAuditionReport ? reflect
 ]
 
@@ -939,8 +939,8 @@ def g34 : List Access := [
 def g35 : List Access := [
   A 1 35 false false [] true [(5, .pre), (6, .pre), (7, .pre), (8, .pre)],  -- makeAuditionState audit.go:157 
   A 1 35 true false [] true [(5, .pre), (6, .pre), (7, .pre), (8, .pre)],  -- makeAuditionState audit.go:162 
-  A 8 35 false false [] true [],  -- audition.processAssignments audit.go:498 
-  A 8 35 true false [] true []  -- audition.setAndActivateVar audit.go:637 
+  A 8 35 false false [] true [],  -- audition.processAssignments audit.go:507 
+  A 8 35 true false [] true []  -- audition.setAndActivateVar audit.go:646 
 ]
 
 /-- auditor.hasData -/
@@ -955,21 +955,21 @@ def g36 : List Access := [
 def g37 : List Access := [
   A 1 37 false false [] true [(5, .post), (6, .post), (7, .post), (8, .post)],  -- collector.isPlayFouledByDisappointment collector.go:399 
   A 1 37 true false [] true [(5, .pre), (6, .pre), (7, .pre), (8, .pre)],  -- makeAuditionState audit.go:149 
-  A 8 37 false false [] true [],  -- audition.processAssignments audit.go:488 
+  A 8 37 false false [] true [],  -- audition.processAssignments audit.go:497 
   A 7 37 false false [] true [],  -- collector.isPlayFouledByDisappointment collector.go:399 
   A 0 37 false false [] false [(2, .mid), (3, .mid), (4, .mid)]  -- auditor.fmtFoul config.go:818 
 ]
 
 /-- auditorState.activated -/
 def g38 : List Access := [
-  A 8 38 false false [] true [],  -- audition.checkEvent audit.go:355 
+  A 8 38 false false [] true [],  -- audition.checkEvent audit.go:365 
   A 8 38 true false [] true []  -- audition.resetAuditors audit.go:180 
 ]
 
 /-- auditorState.auditing -/
 def g39 : List Access := [
-  A 8 39 false false [] true [],  -- audition.checkEvent audit.go:355 
-  A 8 39 true false [] true []  -- audition.checkEventForAuditor audit.go:460 
+  A 8 39 false false [] true [],  -- audition.checkEvent audit.go:364 
+  A 8 39 true false [] true []  -- audition.checkEventForAuditor audit.go:469 
 ]
 
 /-- collectedSignal.hasData -/
@@ -1292,20 +1292,20 @@ def g81 : List Access := [
 
 /-- exec.Cmd.Dir -/
 def g82 : List Access := [
-  A 9 82 true false [] true [(12, .pre), (13, .pre), (14, .pre)],  -- actor.makeShCmd commands.go:357 
+  A 9 82 true false [] true [(12, .pre), (13, .pre), (14, .pre)],  -- actor.makeShCmd commands.go:366 
   A 9 82 false false [] true [(12, .pre), (13, .pre), (14, .pre)],  -- actor.runActorCommandWithConsumer commands.go:73 
   A 0 82 true false [] false [(1, .post), (2, .mid), (3, .mid), (4, .mid)],  -- app.maybeRunGnuplot plot.go:340 
-  A 10 82 true false [] true [(13, .mid), (14, .mid)],  -- actor.makeShCmd commands.go:357 
+  A 10 82 true false [] true [(13, .mid), (14, .mid)],  -- actor.makeShCmd commands.go:366 
   A 10 82 false false [] true [(13, .mid), (14, .mid)],  -- actor.runActorCommandWithConsumer commands.go:73 
-  A 11 82 true false [] true [(14, .pre), (15, .pre), (16, .pre)],  -- actor.makeShCmd commands.go:357 
+  A 11 82 true false [] true [(14, .pre), (15, .pre), (16, .pre)],  -- actor.makeShCmd commands.go:366 
   A 11 82 false false [] true [(14, .pre), (15, .pre), (16, .pre)]  -- actor.runActorCommandWithConsumer commands.go:73 
 ]
 
 /-- exec.Cmd.Stdin -/
 def g83 : List Access := [
-  A 9 83 true false [] true [(12, .pre), (13, .pre), (14, .pre)],  -- actor.makeShCmd commands.go:356 
-  A 10 83 true false [] true [(13, .mid), (14, .mid)],  -- actor.makeShCmd commands.go:356 
-  A 11 83 true false [] true [(14, .pre), (15, .pre), (16, .pre)]  -- actor.makeShCmd commands.go:356 
+  A 9 83 true false [] true [(12, .pre), (13, .pre), (14, .pre)],  -- actor.makeShCmd commands.go:365 
+  A 10 83 true false [] true [(13, .mid), (14, .mid)],  -- actor.makeShCmd commands.go:365 
+  A 11 83 true false [] true [(14, .pre), (15, .pre), (16, .pre)]  -- actor.makeShCmd commands.go:365 
 ]
 
 /-- exec.Cmd.Stdout -/
@@ -1317,9 +1317,9 @@ def g84 : List Access := [
 
 /-- exec.Cmd.SysProcAttr -/
 def g85 : List Access := [
-  A 9 85 true false [] true [(12, .pre), (13, .pre), (14, .pre)],  -- actor.makeShCmd commands.go:354 
-  A 10 85 true false [] true [(13, .mid), (14, .mid)],  -- actor.makeShCmd commands.go:354 
-  A 11 85 true false [] true [(14, .pre), (15, .pre), (16, .pre)]  -- actor.makeShCmd commands.go:354 
+  A 9 85 true false [] true [(12, .pre), (13, .pre), (14, .pre)],  -- actor.makeShCmd commands.go:363 
+  A 10 85 true false [] true [(13, .mid), (14, .mid)],  -- actor.makeShCmd commands.go:363 
+  A 11 85 true false [] true [(14, .pre), (15, .pre), (16, .pre)]  -- actor.makeShCmd commands.go:363 
 ]
 
 /-- fsm.edges -/
@@ -1356,19 +1356,19 @@ def g90 : List Access := [
 
 /-- fsmEval.curState -/
 def g91 : List Access := [
-  A 8 91 true false [] true [],  -- audition.startOfAuditPeriod audit.go:471 
+  A 8 91 true false [] true [],  -- audition.startOfAuditPeriod audit.go:480 
   A 8 91 false false [] true []  -- fsmEval.advance pred_fsm.go:45 
 ]
 
 /-- fsmEval.fsm -/
 def g92 : List Access := [
-  A 8 92 true false [] true [],  -- audition.startOfAuditPeriod audit.go:471 
+  A 8 92 true false [] true [],  -- audition.startOfAuditPeriod audit.go:480 
   A 8 92 false false [] true []  -- fsmEval.advance pred_fsm.go:43 
 ]
 
 /-- fsmEval.labelMap -/
 def g93 : List Access := [
-  A 8 93 true false [] true [],  -- audition.startOfAuditPeriod audit.go:471 
+  A 8 93 true false [] true [],  -- audition.startOfAuditPeriod audit.go:480 
   A 8 93 false false [] true []  -- fsmEval.advance pred_fsm.go:39 
 ]
 
@@ -1662,7 +1662,7 @@ def g138 : List Access := [
 
 /-- var collectFns -/
 def g139 : List Access := [
-  A 8 139 false false [] true [],  -- audition.processAssignments audit.go:505 
+  A 8 139 false false [] true [],  -- audition.processAssignments audit.go:514 
   A 0 139 true false [] false [(1, .pre), (2, .pre), (3, .pre), (4, .pre)]  -- init functions.go:270 
 ]
 
@@ -1895,7 +1895,7 @@ def g176 : List Access := [
 
 /-- variable.watchers[] -/
 def g177 : List Access := [
-  A 8 177 false false [] true [],  -- audition.setAndActivateVar audit.go:641 
+  A 8 177 false false [] true [],  -- audition.setAndActivateVar audit.go:650 
   A 7 177 false false [] true [],  -- collector.collectObservation collector.go:303 
   A 0 177 false false [] false [(1, .pre), (2, .pre), (3, .pre), (4, .pre)],  -- variable.maybeAddWatcher config.go:1063 
   A 0 177 true false [] false [(1, .pre), (2, .pre), (3, .pre), (4, .pre)]  -- variable.maybeAddWatcher config.go:1066 
